@@ -460,3 +460,5 @@ more.register(globals(), {"C07", "C02", "C03", "C09"}, ["fan_catch_paths"])
 
 import s2_found as found
 found.register(globals(), {"C07", "C02", "C03", "C09"}, ["inner_join_failure"])
+
+found.register(globals(), {"C07", "C02", "C03", "C09"}, ["map_selector_failure"])
